@@ -198,3 +198,14 @@ def as_bytes_tuple(check, xs, what):
     if not isinstance(xs, (tuple, list)):
         raise Violation(check, f"{what}: got {_short(xs)} instead of a sequence of hashes")
     return tuple(as_bytes(check, x, what) for x in xs)
+
+
+def as_nibbles(check, x, what):
+    """A result that must be a sequence of nibbles (ints 0..15) -> tuple of ints."""
+    try:
+        out = tuple(int(i) for i in x)
+    except (TypeError, ValueError) as exc:
+        raise Violation(check, f"{what}: got {_short(x)} instead of a nibble sequence") from exc
+    if any(not 0 <= i <= 15 for i in out):
+        raise Violation(check, f"{what}: {out} is not a nibble sequence")
+    return out
